@@ -34,4 +34,5 @@ func invalidSince(reason string) error {
 var (
 	errStackOverflow = invalidSince("type 1 buildchar stack overflow")
 	errIncomplete    = invalidSince("incomplete type 1 charstring")
+	errTooComplex    = invalidSince("type 1 charstring too complex")
 )
